@@ -3,6 +3,8 @@
 use crate::util::*;
 use bugstalker::debugger::verif::PathSearchIndex;
 use serde_json::json;
+#[path = "c17/sym.rs"]
+pub mod sym;
 
 const COMPS: &[&str] = &["a", "b", "ab", "ns1", "ns2", "fn1", "fn2", "f", "main.rs", "src", "home", "", ":", "x:", "λ", "{impl#0}", "<T as U>"];
 
@@ -210,7 +212,7 @@ pub fn exec(req: &[String], out: &mut Out) {
     let mut bins: Vec<Vec<String>> = vec![];
     let mut order: Vec<(bool, usize, usize)> = vec![]; // (is_bin, index, len)
     while i < req.len() {
-        let is_bin = req[i].starts_with("C17 newbin ");
+        let is_bin = req[i].starts_with("C17 newbin ") || req[i].starts_with("C17 new sym ");
         let mut j = i + 1;
         while j < req.len() && !(req[j].starts_with("C17 new ") || req[j].starts_with("C17 newbin ")) { j += 1; }
         if is_bin { order.push((true, bins.len(), j - i)); bins.push(req[i..j].to_vec()); }
@@ -219,7 +221,7 @@ pub fn exec(req: &[String], out: &mut Out) {
     }
     let tmp = std::env::temp_dir().join(format!("bsv-c17-{}", std::process::id()));
     std::fs::create_dir_all(&tmp).unwrap();
-    let results = crate::live::run_sessions(&bins, &tmp, "c17", crate::live::par_default(), 60, |s, emit| bin_session(s, emit));
+    let results = crate::live::run_sessions(&bins, &tmp, "c17", crate::live::par_default(), 60, |s, emit| if s[0].starts_with("C17 new sym ") { sym::sym_session(s, emit) } else { bin_session(s, emit) });
     let _ = std::fs::remove_dir_all(&tmp);
     let mut plain_out = Out::new(&tmp.join("plain"));
     exec_index(&plain, &mut plain_out);
@@ -233,7 +235,9 @@ pub fn exec(req: &[String], out: &mut Out) {
         if is_bin {
             let (lines, how) = &results[idx];
             let mut answers = vec![];
+            let mut rewritten: std::collections::BTreeMap<usize, String> = Default::default();
             for l in lines {
+                if let Some(r) = l.strip_prefix("!req ") { rewritten.insert(answers.len(), r.to_string()); continue; }
                 if let Some(j) = l.strip_prefix("!oracle ") {
                     let v: serde_json::Value = serde_json::from_str(j).unwrap();
                     out.oracle_fail(v["key"].as_str().unwrap(), v["what"].as_str().unwrap(), v["replay"].clone());
@@ -241,7 +245,7 @@ pub fn exec(req: &[String], out: &mut Out) {
             }
             out.oracle_evals += answers.len() as u64;
             if how != "ok" { out.oracle_fail("debugger-crashed-or-hung", &format!("worker ended with {how}"), json!({"session": bins[idx][0]})); }
-            for (k, l) in bins[idx].iter().enumerate() { out.pair(l.clone(), answers.get(k).cloned().unwrap_or_else(|| format!("worker-{how}"))); }
+            for (k, l) in bins[idx].iter().enumerate() { out.pair(rewritten.get(&k).unwrap_or(l).clone(), answers.get(k).cloned().unwrap_or_else(|| format!("worker-{how}"))); }
         } else {
             for k in 0..len { out.pair(plain_out.req[pi + k].clone(), plain_out.imp[pi + k].clone()); }
             pi += len;
@@ -294,6 +298,7 @@ pub fn run(args: &[String]) {
             let mut rng = Rng::new(a.seed);
             let mut r = gen_requests(&mut rng, a.n, &mut out);
             r.extend(gen_bin_requests(&mut rng, &mut out));
+            r.extend(sym::gen_sym_requests(&mut rng, a.n, &mut out));
             r
         }
     };
